@@ -7,7 +7,7 @@ ENGINES = [
          kind_free_text='independent reference semantics: literal truth tables from the literature, recursive evaluator, exhaustive finite countermodel search'),
     dict(name='gen', path='/verif/mc/gen.py', serves_properties=['C01', 'C02', 'C03', 'C09', 'C10', 'C11', 'C12', 'C13', 'C15'],
          kind_free_text='bounded-exhaustive generators of sentences, arguments and strings'),
-    dict(name='seqx', path='/verif/mc/seqx.py', serves_properties=['C18'],
+    dict(name='seqx', path='/verif/mc/seqx.py', serves_properties=['C06', 'C13', 'C14', 'C17', 'C18'],
          kind_free_text='explicit-state BFS over operation sequences on the real object in lock-step with a reference model'),
 ]
 
@@ -45,5 +45,63 @@ CHECKS['C07'] = dict(
     text=('All 57 logics x 8 operators x all value tuples (5850 comparisons) against tables transcribed from the literature, plus the '
           'definitional identities and base-logic equality of every modal extension. Finite and complete.'),
     note='Trusted: the transcription in mc/refsem/tables.py.')
+
+
+def _mc(pid, engine, technique, text, note, level='model_checking'):
+    CHECKS[pid] = dict(engine=engine, level=level, design_ref=f'DESIGN.md section 4, {pid}', technique=technique, text=text, note=note)
+
+_mc('C01', 'tabx+refsem',
+    'stateless exploration of tableau schedules (deviation-bounded DFS over tie-break choice points of the real prover) x bounded-exhaustive arguments x option combinations; oracle: exhaustive finite countermodel search in an independent reference semantics',
+    'Every argument of the PROP/MODAL/FO(+FO-modal) families up to the tier\'s weight bound is run in all 57 logics under the default schedule, every schedule within the deviation bound '
+    'and the non-default option combinations; each valid verdict is checked against an exhaustive search of reference models (<= 2-3 worlds, <= 1-2 anonymous elements).',
+    'Trusted: mc/refsem (tables cross-checked by C07), hooks H1/H2. A countermodel larger than the stated bounds is not found; C04/C05/C06 cover the unbounded local obligations.')
+_mc('C02', 'tabx+refsem',
+    'stateless exploration of tableau schedules x bounded-exhaustive arguments, model building on; oracle: node-by-node satisfaction of every open limit-free branch by the library model, its own countermodel test, and re-evaluation of the model data by the reference evaluator',
+    'Same execution space as C01 with is_build_models=True; every open branch without a quit flag (about 80 000 in the quick tier) must yield a finished model that satisfies each node at its world, '
+    'is accepted by is_countermodel_to(), and is a countermodel again when its atomic data are evaluated by mc/refsem.',
+    'Trusted: mc/refsem evaluator; a branch is limit-free iff it has no quit-flag node.')
+_mc('C05', 'refsem',
+    'complete enumeration of ordered literal subsets x carriers x world placements on the real closure rules and model builder',
+    'Every ordered subset of the literal constraints {s+, s-, ~s+, ~s-} (bivalent {s, ~s}) on an atom, a predication and an uninterpreted sentence, in every logic and world placement, plus ordered subsets of the '
+    'identity/existence literals in the classical family: the branch closes iff no reference value satisfies the set, and the model read off an open set satisfies it.',
+    'Trusted: designated values and negation tables of mc/refsem.', level='exploration')
+_mc('C06', 'seqx+tabx',
+    'explicit-state BFS over append/copy histories on real Branch objects with a recomputing reference; witness-step monitor over explored tableau executions',
+    'All histories of node additions and branch copies over a 12/16-node alphabet (out-of-order, wrapping and world-tagged constants, access nodes) to depth 4/5 with up to 2/3 live branches: the offered new '
+    'constant/world never occurs on the branch, constants/worlds equal the recomputed sets, copies are independent; every witness-introducing step of FO/modal proofs uses an item absent from the branch.',
+    'Trusted: reference recomputation from node lists. Depth-capped (reported in evidence).')
+_mc('C09', 'tabx',
+    'differential exploration of the real prover: option combinations x drivers x schedules within the deviation bound x premise permutations/duplications per argument',
+    'For each selected (logic, argument) all executions of the product must not raise and may not contain both a valid verdict and an invalid verdict with a limit-free open branch.',
+    'Trusted: hooks H1/H2 for replay; limit-only outcomes are ignored as the property says.')
+_mc('C12', 'gen',
+    'bounded-exhaustive enumeration of sentences over the full vocabulary x 54 writer configurations; round trips through the real parsers; collision maps',
+    'About 88 000 (quick) sentences covering every operator, quantifier, index, subscript class, arity and both system predicates: polish ascii write/parse, argstr rebuild (also in alternation between '
+    'two arity assignments), an independent infix printer over the standard parse table -> standard parser (full/outer-dropped parentheses, extra whitespace), and injectivity per writer configuration.',
+    'Trusted: the harness infix printer. Sentences above the weight bound are not covered.', level='exploration')
+_mc('C13', 'gen+seqx',
+    'exhaustive enumeration of all strings up to length 5/6 over one representative per lexical class x notations x predicate stores on a long-lived and a fresh parser; grammar mutations; BFS over parse histories',
+    'About 10.5 million (quick) strings: the result is a sentence or ParseError, every returned sentence is closed, non-vacuous, singly bound (independent walker), and the long-lived parser agrees with a fresh parser '
+    'holding the prior predicate store.',
+    'Trusted: the independent well-formedness walker. Longer strings are covered only through single-character mutations of well-formed renderings.', level='exploration')
+_mc('C14', 'seqx',
+    'explicit-state BFS over construction histories in processes with ITEM_CACHE_SIZE 1/2/3; exhaustive pair/triple comparison of items of all nine lexical types',
+    'All ordered pairs of ~460 items and 180 arguments (== iff structurally identical, hashes, strict total order by type rank), triples of a stratified subset, rebuild by ident/spec/copy/deepcopy/pickle, '
+    'immutability, construction fidelity; BFS to depth 4/5 over 48 construction operations against tiny caches so every eviction pattern occurs.',
+    'Trusted: structural key walk. Operator/Quantifier enum members are not tested for immutability (see DESIGN.md).')
+_mc('C15', 'gen',
+    'bounded-exhaustive enumeration of sentences x all parameter pairs against a reference substitution on structural tuples, also under construction-cache eviction',
+    'Every closed sentence up to weight 2/3 with nested binders (plus open bodies and same-object operand pairs) x 25 (new, old) pairs; instantiation, negative(), and the six published collections against a prefix-order walk.',
+    'Trusted: reference substitution (binders untouched).', level='exploration')
+_mc('C16', 'tabx',
+    'step-mode exploration of the real tableau with an event-fed shadow model compared after the trunk, after every step and after finish',
+    'About 19 000 (quick) executions incl. 1-deviation schedules, all option combinations, model building and a 2-step cut; ~100 000 intermediate states each checked for trunk shape, monotone branches, open view, '
+    'parent extension, history entry identity, step-number stats, tree/leaf/branch agreement and recomputed counts/statistics.',
+    'Trusted: the shadow model fed only by public events.')
+_mc('C17', 'tabx+seqx',
+    'exhaustive cut points (every step limit 1..n+1, every timeout firing point under a virtual clock) on the real tableau; explicit-state BFS over lifecycle call interleavings',
+    'Every max_steps in {None,0,-1,1..n+1} x {build, step} on ~450 proofs compared with the unlimited run; every point at which a timeout check can fire (virtual clock, with/without model building); '
+    'BFS to depth 4/5 over 12 lifecycle operations from 8 initial configurations against the documented IllegalStateError conditions and finished/started invariants.',
+    'Trusted: time owned through tools.timing._time; real-time behaviour not exercised.')
 
 NOT_APPLICABLE = {}
